@@ -133,14 +133,6 @@ class _fill:
     def _(a, old, result):
         return same_binning(attr(old.self, "_binnings")[0], attr(a.self, "_binnings")[0])
 
-    known = {
-        # F25: with keep_missed=False a value in a gap still turns the missed markers into NaN
-        "missed_values": [("F25", lambda o: And(not o.self.keep_missed, in_gap(bins_of(attr(o.self, "_binnings")[0]), o.value)))],
-        # F20: NaN markers cannot be stored into an integer _missed array
-        "raise:ValueError": [("F20", lambda o: And(in_gap(bins_of(attr(o.self, "_binnings")[0]), o.value),
-                                                   not (hasattr(o, "weight") and typename(o.weight) == "float"),
-                                                   str(attr(o.self, "_dtype")) == "int64"))],
-    }
 
 
 # ---------------------------------------------------------------------------------------------- adaptive fill (C04)
@@ -267,8 +259,10 @@ class _fill_n:
         for x, wt in zip(d, w):
             under = under + If(And(Not(isnan(x)), x < bins[0][0]), wt, 0)
             over = over + If(And(Not(isnan(x)), x > bins[-1][1]), wt, 0)
+        nonempty = Or(*[Not(isnan(x)) for x in d]) if d else False      # an empty batch (after dropping NaN) changes nothing
         return And(Implies(exact, And(m1[0] == m0[0] + under, m1[1] == m0[1] + over)),
-                   Implies(Not(exact), And(isnan(m1[0]), isnan(m1[1]))))
+                   Implies(And(Not(exact), nonempty), And(isnan(m1[0]), isnan(m1[1]))),
+                   Implies(Not(nonempty), same(m0, m1)))
 
     @ensures("statistics_accumulate")
     def _(a, old, result):
@@ -292,8 +286,6 @@ class _fill_n:
 
     known = {
         "missed_values": [("F19b", lambda o: micro_gap_(bins_of(attr(o.self, "_binnings")[0])))],
-        "raise:ValueError": [("F20", lambda o: And(Not(exactly_consecutive_(bins_of(attr(o.self, "_binnings")[0]))),
-                                                   str(attr(o.self, "_dtype")) == "int64"))],
     }
 
 
